@@ -6,6 +6,13 @@ import glob, os
 src = json.load(open('/verif/manifest.d/_global.json'))
 src['checks'] = {os.path.basename(f)[:-5]: json.load(open(f)) for f in glob.glob('/verif/manifest.d/C*.json')}
 src['na'] = json.load(open('/verif/manifest.d/_na.json')) if os.path.exists('/verif/manifest.d/_na.json') else {}
+def race_note(f, technique):
+    """states in the technique field under which tiers the Go race detector watches the run (from checks.tbl)"""
+    q, t = f[2] == '1', f[3] == '1'
+    if not (q or t):
+        return ''
+    tiers = 'quick and thorough tiers' if q and t else 'quick tier' if q else 'thorough tier'
+    return f"; run under the Go race detector ({tiers}), reports in {f[6].strip()} count as violations"
 tbl = {}
 for l in open('/verif/checks.tbl'):
     l = l.strip()
@@ -26,7 +33,7 @@ for p in props:
             "engine": "harness",
             "level_claimed": {"category": e.get("category", "exploration"), "text": e["text"], "design_ref": f"DESIGN.md §3 {pid}"},
             "level_note": e["note"],
-            "technique": e["technique"],
+            "technique": e["technique"] + race_note(tbl[pid], e["technique"]),
         })
     else:
         na.append({"property_id": pid, "reason": src.get('na', {}).get(pid, "no check registered yet: monitor still being built in this session (runtime monitoring applies; see DESIGN.md §3)")})
